@@ -33,28 +33,13 @@ def hashChain (obs : List String) : String :=
 def glueCheckLowS (sig : Bytes) : Bool := Crypto.checkLowS sig
 def glueCheckTapTweak (q p k : Bytes) (parity : Bool) : Bool := Crypto.checkTapTweak q p k parity
 
-/-- `BaseSignatureChecker` + real hash functions -/
-def baseCtx : Model.Ctx where
-  sha256 := Crypto.sha256
-  ripemd160 := Crypto.ripemd160
-  sha1 := Crypto.sha1
-  checkLowS := glueCheckLowS
-  checkLockTime := fun _ => false
-  checkSequence := fun _ => false
-  checkECDSA := fun _ _ _ _ => false
-  checkSchnorr := fun _ _ _ _ => .error (.script .UNKNOWN_ERROR)
+/-- `BaseSignatureChecker` + real hash functions: the instance the theorems are about (`C01_trace_base`) -/
+def baseCtx : Model.Ctx := Glue.baseCtx
 
 def baseTap : Model.TapCtx := Glue.tapCtx
 
-def baseOracle : Spec.SigOracle where
-  checkLowS := glueCheckLowS
-  checkLockTime := fun _ => false
-  checkSequence := fun _ => false
-  ecdsa := fun _ _ _ _ => false
-  schnorr := fun _ _ _ _ => .error .UNKNOWN_ERROR
-  sha256 := Crypto.sha256
-  ripemd160 := Crypto.ripemd160
-  sha1 := Crypto.sha1
+/-- the specification's oracle for plain scripts -/
+def baseOracle : Spec.SigOracle := Glue.baseOracle
 
 structure RunCfg where
   sigver : SigVersion
